@@ -96,6 +96,40 @@ def vmStep (st : VmEngState) (args : List String) : VmEngState × String :=
         (st, "A={" ++ showObs p sa ea ++ "} B={" ++ showObs p sb eb ++ "} gcs=" ++ toString sb.forcedGcs ++ "/" ++ toString sb.allocIndex ++
              " allocA=" ++ toString sa.mem.allocated ++ " allocB=" ++ toString sb.mem.allocated)
     | none => (st, "bad-op")
+  | "repeat" :: m :: rest =>
+    match st.st, Module.ofTok? m with
+    | some s, some m =>
+      match compile m Gen.stdlib with
+      | .error e => (st, "compile-" ++ showCErr e)
+      | .ok prog =>
+        let p := Prog.ofProgram prog
+        let n := kv rest "n" 10
+        let clr := kv rest "clear" 1 == 1
+        let budget := kv rest "budget" Gen.maxInstr
+        let rec go (k i : Nat) (s : VmState) (first : String) (same : Nat) (last : String) : VmState × String × Nat × String :=
+          match k with
+          | 0 => (s, first, same, last)
+          | k+1 =>
+            let (s', e) := run p budget { s with hostLog := [], sched := .none, allocIndex := 0, forcedGcs := 0 }
+            let o := if clr then showOutcome p s' e else showObs p s' e
+            let first := if i == 0 then o else first
+            let (same, last) := if o == first then (same + 1, last)
+              else if last.isEmpty then (same, " run" ++ toString i ++ "={" ++ o ++ "}") else (same, last)
+            go k (i + 1) (if clr then clear s' else s') first same last
+        let (s', first, same, last) := go n 0 s "" 0 ""
+        ({ st with st := some s' }, "first={" ++ first ++ "} same=" ++ toString same ++ "/" ++ toString n ++ last)
+    | _, _ => (st, "bad-op")
+  | "budcheck" :: m :: rest =>
+    match Module.ofTok? m with
+    | some m =>
+      match compile m Gen.stdlib with
+      | .error e => (st, "compile-" ++ showCErr e)
+      | .ok prog =>
+        let p := Prog.ofProgram prog
+        let (sa, ea) := run p (kv rest "budget" Gen.maxInstr) (VmState.fresh st.cfg)
+        let (sb, eb) := run p (kv rest "budget2" Gen.maxInstr) (VmState.fresh st.cfg)
+        (st, "A={" ++ showOutcome p sa ea ++ "} B={" ++ showOutcome p sb eb ++ "}")
+    | none => (st, "bad-op")
   | ["clear"] =>
     match st.st with
     | some s => ({ st with st := some (clear s) }, "ok")
